@@ -18,6 +18,8 @@ import argparse, glob, json, os, random, shutil, struct, sys, tempfile
 from vreactor import vr
 import allmydata.storage.crawler as crawler_mod
 from allmydata.storage.crawler import ShareCrawler
+import allmydata.storage.expirer as expirer_mod
+from allmydata.storage.expirer import LeaseCheckingCrawler
 from allmydata.storage.server import StorageServer
 from allmydata.storage.common import si_b2a, storage_index_to_dir
 
@@ -57,7 +59,31 @@ class LoggingCrawler(ShareCrawler):
         self.rp.on_finished_cycle(self, cycle)
 
 
+class LoggingLeaseCrawler(LeaseCheckingCrawler):
+    """The crawler every storage server runs: LeaseCheckingCrawler (expiration disabled), its own hooks left in place --
+    the state it keeps for a cycle in progress goes through the same state file and must survive the same schedules."""
+    rp = None
+
+    def started_cycle(self, cycle):
+        LeaseCheckingCrawler.started_cycle(self, cycle)
+        self.rp.on_started_cycle(self, cycle)
+
+    def process_bucket(self, cycle, prefix, prefixdir, storage_index_b32):
+        self.rp.entry(self, "process_bucket")
+        LeaseCheckingCrawler.process_bucket(self, cycle, prefix, prefixdir, storage_index_b32)
+        self.rp.on_process_bucket(self, cycle, prefix, storage_index_b32)
+
+    def finished_prefix(self, cycle, prefix):
+        self.rp.on_finished_prefix(self, cycle, prefix)
+
+    def finished_cycle(self, cycle):
+        LeaseCheckingCrawler.finished_cycle(self, cycle)
+        self.rp.on_finished_cycle(self, cycle)
+
+
 class Replay:
+    kind = "plain"
+
     def __init__(self, beh, workdir, rng, np_):
         self.steps = beh["steps"]
         self.disk0 = beh["disk0"]
@@ -66,6 +92,7 @@ class Replay:
         self.dir = tempfile.mkdtemp(prefix="crawl", dir=workdir)
         self.ft = FakeTime()
         crawler_mod.time = self.ft
+        expirer_mod.time = self.ft
         self.ss = StorageServer(self.dir, b"\x07" * 20, clock=vr)
         self.statefile = os.path.join(self.dir, "verif_crawler.state")
         self.all_prefixes = None
@@ -114,7 +141,10 @@ class Replay:
         shutil.rmtree(os.path.join(self.ss.sharedir, storage_index_to_dir(self.si[b])))
 
     def new_crawler(self):
-        c = LoggingCrawler(self.ss, self.statefile)
+        if self.kind == "lease":
+            c = LoggingLeaseCrawler(self.ss, self.statefile, self.statefile + ".history", False, "age", None, None, ("mutable", "immutable"))
+        else:
+            c = LoggingCrawler(self.ss, self.statefile)
         c.rp = self
         self.all_prefixes = c.prefixes
         assert list(c.prefixes) == self.names
@@ -340,10 +370,19 @@ def main():
             beh = json.load(open(f))
             rng = random.Random(a.seed * 100003 + n)
             rp = Replay(beh, work, rng, a.np)
+            # every third behaviour is forced on the lease checker (the crawler every server runs) instead of the bare subclass
+            rp.kind = "lease" if n % 3 == 2 else "plain"
             try:
                 r = rp.run()
             except Divergence as d:
                 r = {"ok": False, "kind": d.kind, "detail": d.detail, "steps": rp.i}
+            except Killed:
+                raise
+            except Exception as e:      # the Spec has no failing step: an exception out of a slice is the observation
+                import traceback
+                r = {"ok": False, "kind": "exception_%s_%s" % (rp.kind, type(e).__name__), "steps": rp.i,
+                     "detail": {"crawler": rp.kind, "error": str(e)[:300], "where": traceback.format_exc().strip().splitlines()[-4:]}}
+            r["crawler"] = rp.kind
             r["file"] = os.path.basename(f)
             r["prefixes"] = rp.pidx
             r["log"] = rp.log if (n < 3 or not r["ok"]) else []
